@@ -6,7 +6,7 @@
    equally long), no number component after the first has a leading zero, at most one
    suffix each, and no bare suffix stands against the same suffix with integer part 0. *)
 From LC Require Import Lib.Bytes Lib.Lex Model.PMS Model.AtomMatch Cases.C13
-  Proofs.C13Lex Proofs.AtomMatchP Proofs.C13P Proofs.C13Range Proofs.C13Holds Proofs.C13Thm.
+  Proofs.C13Lex Proofs.AtomMatchP Proofs.C13P Proofs.C13Range Proofs.C13Holds Proofs.C13Thm Proofs.C13Vdb.
 Import PMS C13.
 Open Scope N_scope.
 
@@ -88,6 +88,46 @@ Print Assumptions C13_use_deps.
 Theorem C13_holds : forall c, C13.wf c = true -> C13.kf c = 0 -> C13.spec c (C13.model c) = true.
 Proof. exact holds. Qed.
 Print Assumptions C13_holds.
+
+(* ---- installed packages as /var/db/pkg records them (files IUSE, IUSE_EFFECTIVE, USE) ---- *)
+(* the reference: an installed package has a flag enabled iff the flag is declared (IUSE_EFFECTIVE, or
+   IUSE where that file is not recorded) and listed in USE; disabled iff declared and not listed *)
+Theorem C13_installed_on : forall f iuse eff use,
+  lookup f (installed_flags iuse eff use) = Some true <->
+  In f (declared_flags iuse eff) /\ In f (match use with Some l => l | None => [] end).
+Proof. exact installed_on. Qed.
+Print Assumptions C13_installed_on.
+Theorem C13_installed_off : forall f iuse eff use,
+  lookup f (installed_flags iuse eff use) = Some false <->
+  In f (declared_flags iuse eff) /\ ~ In f (match use with Some l => l | None => [] end).
+Proof. exact installed_off. Qed.
+Print Assumptions C13_installed_off.
+(* the "+" / "-" prefixes of IUSE (defaults for building) say nothing about the installed package *)
+Theorem C13_installed_prefix_independent : forall i1 i2 eff use,
+  map snd i1 = map snd i2 -> installed_flags (Some i1) eff use = installed_flags (Some i2) eff use.
+Proof. exact installed_prefix_independent. Qed.
+Print Assumptions C13_installed_prefix_independent.
+
+(* the loader (vdb/get_list.go setAtom: first of IUSE_EFFECTIVE / IUSE, TrimSpace, NewUseFlagSetFromIUSE,
+   SetFlagsFromUSE) builds exactly that flag set from the files of any well-formed entry ... *)
+Theorem C13_vdb_flags : forall e m, wf_ent e = true -> flag_state m (ent_flags e) = lookup m (ent_pms e).
+Proof. exact ent_flags_state. Qed.
+Print Assumptions C13_vdb_flags.
+(* ... the depending package's loaded flags (ParentUseFlags = GetMap) are its PMS flags ... *)
+Theorem C13_vdb_parent : forall e m, wf_ent e = true ->
+  ctx_lookup m (get_map (ent_flags e)) = match lookup m (ent_pms e) with Some b => b | None => false end.
+Proof. exact ent_parent_flags. Qed.
+Print Assumptions C13_vdb_parent.
+(* ... and the loaded package compares by its version and the slot part of its SLOT file *)
+Theorem C13_vdb_slot : forall p, wf_pkg p = true ->
+  pa_compver (parse_vdb_pkg p) = pa_compver (parse_pkg p) /\ pa_slot (parse_vdb_pkg p) = pa_slot (parse_pkg p).
+Proof. exact vdb_pkg_compares. Qed.
+Print Assumptions C13_vdb_slot.
+
+(* the per-case statement for extended cases (candidate and/or depending package loaded from a VDB entry) *)
+Theorem C13_holds_vdb : forall x, C13.xwf x = true -> C13.xkf x = 0 -> C13.xspec x (C13.xmodel x) = true.
+Proof. exact xholds. Qed.
+Print Assumptions C13_holds_vdb.
 
 (* the known-finding classes are genuine: a well-formed witness on which the model (= the code) disagrees with PMS *)
 Theorem C13_refuted_1 : exists c, wf c = true /\ kf c = 1 /\ spec c (model c) = false.
